@@ -3,6 +3,7 @@
 package handshake
 
 import (
+	"berty.tech/weshnet/v2/pkg/protoio"
 	"bytes"
 	"context"
 	"crypto/ed25519"
@@ -15,6 +16,7 @@ import (
 	"sort"
 	"sync"
 	"testing"
+	"time"
 
 	p2pcrypto "github.com/libp2p/go-libp2p/core/crypto"
 	"go.uber.org/zap"
@@ -66,8 +68,11 @@ func (s *scriptedIO) ReadMsg(m proto.Message) error {
 	return proto.Unmarshal(b, m)
 }
 
-func frameHello(pub []byte) []byte { b, _ := proto.Marshal(&HelloPayload{EphemeralPubKey: pub}); return b }
-func frameBox(bx []byte) []byte    { b, _ := proto.Marshal(&BoxEnvelope{Box: bx}); return b }
+func frameHello(pub []byte) []byte {
+	b, _ := proto.Marshal(&HelloPayload{EphemeralPubKey: pub})
+	return b
+}
+func frameBox(bx []byte) []byte { b, _ := proto.Marshal(&BoxEnvelope{Box: bx}); return b }
 func frameAck(ok bool) []byte {
 	b, _ := proto.Marshal(&RequesterAcknowledgePayload{Success: ok})
 	return b
@@ -763,6 +768,17 @@ func TestVerifC06(t *testing.T) {
 			rep.Violation("C06/honest-handshake-fails", fmt.Sprintf("%s -> %s: req=%v resp=%v key=%s", pair[0].name, pair[1].name, reqErr, respErr, pubName(w, k)), nil)
 		}
 	}
+	// the same honest run over the real framing (length-delimited reader/writer as the contact-request manager sets
+	// them up) on a byte stream that hands over at most n bytes per read
+	for _, chunk := range []int{0, 1, 2, 7, 64} {
+		reqErr, k, respErr := framedHonestRun(w.A, w.B, chunk)
+		ok := reqErr == nil && respErr == nil && k != nil && k.Equals(w.A.sk.GetPublic())
+		rep.Eval(fmt.Sprintf("honest-framed/chunk=%d/ok=%v", chunk, ok))
+		rep.AddTransitions(1)
+		if !ok {
+			rep.Violation("C06/honest-handshake-fails-on-segmented-stream", fmt.Sprintf("A -> B over a stream that delivers at most %d bytes per read (0 = whole writes): req=%v resp=%v key=%s", chunk, reqErr, respErr, pubName(w, k)), map[string]interface{}{"chunk": chunk})
+		}
+	}
 	// wrong target key: the requester must fail, the responder must not succeed either
 	{
 		_, reqErr, k, respErr, _ := honestRunFull(w.A, w.B, w.M.sk.GetPublic(), nil)
@@ -913,20 +929,20 @@ func TestVerifC06(t *testing.T) {
 		sem <- struct{}{}
 		go func() {
 			defer func() { <-sem; wg.Done() }()
-		k := &knowledge{}
-		var names []string
-		for _, hi := range combo {
-			hs[hi].run(k)
-			names = append(names, hs[hi].name)
-		}
-		k2 := k.clone()
-		w.targetT1(rep, k, names, k2)
-		// T2 after T1: the frames B produced while being attacked are part of the attacker's knowledge
-		w.targetT2(rep, k2, append(append([]string{}, names...), "T1-attempts"))
-		if ci < 3 || ci == len(combos)-1 {
-			rep.Sample(map[string]interface{}{"harvest_sessions": names, "known_signatures": len(k.sigs), "recorded_frames": len(k.frames), "frames_after_T1": len(k2.frames)})
-		}
-		rep.AddStates(1)
+			k := &knowledge{}
+			var names []string
+			for _, hi := range combo {
+				hs[hi].run(k)
+				names = append(names, hs[hi].name)
+			}
+			k2 := k.clone()
+			w.targetT1(rep, k, names, k2)
+			// T2 after T1: the frames B produced while being attacked are part of the attacker's knowledge
+			w.targetT2(rep, k2, append(append([]string{}, names...), "T1-attempts"))
+			if ci < 3 || ci == len(combos)-1 {
+				rep.Sample(map[string]interface{}{"harvest_sessions": names, "known_signatures": len(k.sigs), "recorded_frames": len(k.frames), "frames_after_T1": len(k2.frames)})
+			}
+			rep.AddStates(1)
 		}()
 	}
 	wg.Wait()
@@ -1007,4 +1023,61 @@ func relayRun(a, target, r *party, ack string) (p2pcrypto.PubKey, error, interfa
 		panicked = res.p
 	}
 	return res.k, res.err, panicked
+}
+
+// chunkedReader hands over at most n bytes per Read (n = 0: whatever the pipe delivers).
+type chunkedReader struct {
+	r io.Reader
+	n int
+}
+
+func (c *chunkedReader) Read(p []byte) (int, error) {
+	if c.n > 0 && len(p) > c.n {
+		p = p[:c.n]
+	}
+	return c.r.Read(p)
+}
+
+func framedHonestRun(a, b *party, chunk int) (reqErr error, respKey p2pcrypto.PubKey, respErr error) {
+	aIn, bOut := io.Pipe()
+	bIn, aOut := io.Pipe()
+	ctx, cancel := context.WithTimeout(context.Background(), 60*time.Second)
+	defer cancel()
+	type resB struct {
+		k   p2pcrypto.PubKey
+		err error
+	}
+	doneB := make(chan resB, 1)
+	go func() {
+		var r resB
+		defer func() {
+			if x := recover(); x != nil {
+				r.err = fmt.Errorf("PANIC %v", x)
+			}
+			_ = bOut.Close()
+			doneB <- r
+		}()
+		r.k, r.err = ResponseUsingReaderWriter(ctx, zap.NewNop(), protoio.NewDelimitedReader(&chunkedReader{bIn, chunk}, 2048), protoio.NewDelimitedWriter(bOut), b.sk)
+	}()
+	doneA := make(chan error, 1)
+	go func() {
+		var err error
+		defer func() {
+			if x := recover(); x != nil {
+				err = fmt.Errorf("PANIC %v", x)
+			}
+			_ = aOut.Close()
+			doneA <- err
+		}()
+		err = RequestUsingReaderWriter(ctx, zap.NewNop(), protoio.NewDelimitedReader(&chunkedReader{aIn, chunk}, 2048), protoio.NewDelimitedWriter(aOut), a.sk, b.sk.GetPublic())
+	}()
+	// a desynchronised stream leaves both sides waiting for bytes: end them when the context expires
+	go func() {
+		<-ctx.Done()
+		_ = aIn.CloseWithError(ctx.Err())
+		_ = bIn.CloseWithError(ctx.Err())
+	}()
+	reqErr = <-doneA
+	r := <-doneB
+	return reqErr, r.k, r.err
 }
